@@ -33,7 +33,7 @@ def gen_features(rng, allow_empty=True):
     return out
 
 
-def gen_env_cfg(rng, *, multi=None, big=False, padding=None, positive=True):
+def gen_env_cfg(rng, *, multi=None, big=False, padding=None, positive=True, huge=0.0):
     if multi is None:
         multi = rng.random() < 0.35
     cfg = {
@@ -70,7 +70,7 @@ def gen_env_cfg(rng, *, multi=None, big=False, padding=None, positive=True):
             cfg["gen"]["allow_recirculation"] = False
     else:
         cfg["instance"] = gen_instance(rng, max_jobs=5 if big else 4, max_machines=4, max_ops=5 if big else 4,
-                                       positive=True if positive else None)
+                                       positive=True if positive else None, huge=huge)
     return cfg
 
 
@@ -96,7 +96,7 @@ def gen_env_ops(rng, n, *, episodes=None, p_invalid=0.0, p_reset=0.0):
 
 
 def gen_env_case(rng, prop, *, big=False, rewards_focus=False, multi=None, faults=True, padding=None):
-    cfg = gen_env_cfg(rng, multi=multi, big=big, padding=padding)
+    cfg = gen_env_cfg(rng, multi=multi, big=big, padding=padding, huge=0.1 if rewards_focus else 0.0)
     n = n_ops(cfg["instance"]) if cfg["env"] == "single" else cfg["gen"]["num_jobs"][1] * cfg["gen"]["num_machines"][1]
     faulty = faults and rng.random() < 0.5
     ops = gen_env_ops(rng, n, p_invalid=0.1 if faulty else 0.0, p_reset=0.03 if faulty else 0.0)
@@ -295,6 +295,13 @@ class EnvWorld:
         return out
 
     def invalid_action(self, kind, a, b):
+        r = self._invalid_action(kind, a, b)
+        if r is not None and (a + 3 * b) % 4 == 0:  # the same decision as numpy integers
+            act, desc = r
+            r = ((np.int64(act[0]), np.int64(act[1])), desc + " [numpy ints]")
+        return r
+
+    def _invalid_action(self, kind, a, b):
         m = self.model
         nxt = m.nxt
         if kind == "finished_job":
@@ -459,7 +466,9 @@ def reward_oracles(w, reward, when):
     total = -m.makespan() if w.cfg["reward"] == "makespan" else -m.idle_time()
     ctx.check(sum(r) == total, "reward_sum_equals_objective", lambda: f"{when}: sum(rewards) = {sum(r)} ({r}), objective {total}", reward=name)
     if reward is not None:
-        ctx.check(bool(r) and reward == r[-1], "step_reward_is_emitted_reward", lambda: f"{when}: step() returned reward {reward}, reward function emitted {r[-1] if r else None}", reward=name)
+        # exact comparison in Python numbers (a float32 reward would compare equal to a nearby int under numpy's rules)
+        ctx.check(bool(r) and float(reward) == float(r[-1]) and int(reward) == int(r[-1]), "step_reward_is_emitted_reward",
+                  lambda: f"{when}: step() returned reward {reward!r}, reward function emitted {r[-1] if r else None!r}", reward=name)
 
 
 def execute_env_case(case, ctx, oracles=("contract",)):
